@@ -6,7 +6,7 @@
 From Coq Require Import List ZArith Bool.
 From SV Require Import C06.Model C06.Spec C06.Proofs C06.Proofs2 C06.Proofs3 C06.Proofs4.
 From SV Require Gen.DecC06.   (* not imported: its names coincide with the model's *)
-From SV Require Import Gen.DecTypes C06.TieGen.
+From SV Require Import Gen.DecTypes Gen.DecTypes2 C06.TieGen.
 Import ListNotations.
 Open Scope Z_scope.
 
@@ -172,3 +172,34 @@ Print Assumptions c06_tie_verdict_class.
 Theorem c06_tie_enc_exists : meta_enc_ok menc.
 Proof. exact menc_ok. Qed.
 Print Assumptions c06_tie_enc_exists.
+
+(* Close's final-flush loop: the generated slice, fed with the remaining-POM counts the model produces along the run
+   ([close_script]) and the model's configuration, makes exactly the flush attempts the model makes ([close_flush_count]:
+   attempts started with closed = false), consumes exactly that much of the script, and never more than Retry.Max + 1 *)
+Theorem c06_tie_close_attempts : forall c s0 rs,
+  pc s0 = Idle -> closing s0 = None -> closed s0 = false -> (S (c_retry_max c) <= length rs)%nat ->
+  let s1 := step c s0 CloseBegin in
+  let k := close_flush_count c s1 rs in
+  DecC06.close_final_flush (close_script c s1 rs) (c_autocommit c) (Z.of_nat (c_retry_max c)) =
+    (skipn k (close_script c s1 rs), repeat OC_flush k, @ExFall unit) /\
+  (k <= S (c_retry_max c))%nat.
+Proof. exact tie_close_attempts. Qed.
+Print Assumptions c06_tie_close_attempts.
+
+(* AddBlock: the generated map writes, executed on a two-level request (nil = None) under its own nil tests, are a point
+   update at (topic, partition) ... *)
+Theorem c06_tie_add_block_update : forall r t p o ts m t' p',
+  nlookup (add_block_on r t p o ts m) t' p' =
+    if String.eqb t' t && (p' =? p) then Some (o, ts, m) else nlookup r t' p'.
+Proof. exact tie_add_block_update. Qed.
+Print Assumptions c06_tie_add_block_update.
+
+(* ... and the request the model logs is, partition for partition, what these AddBlock calls build from an empty request
+   ([tp]: any injective naming of the model's partition ids as (topic, partition)) *)
+Theorem c06_tie_add_block : forall enc (tp : pid -> String.string * Z), (forall a b, tp a = tp b -> a = b) ->
+  forall c req q,
+  req_event c req = EvReq (req_version c) (c_retention c) (event_blocks c req) /\
+  nlookup (build enc tp (event_blocks c req) None) (fst (tp q)) (snd (tp q)) =
+    option_map (enc_blk enc) (get q (rev (event_blocks c req))).
+Proof. exact tie_add_block. Qed.
+Print Assumptions c06_tie_add_block.
